@@ -8,6 +8,7 @@ import Proofs.C16Json
 import Proofs.C16Ber
 import FqModel.Serial.SourcePins
 import FqModel.Gen.SerialTables
+import FqModel.Serial.Ties
 /-!
   C16 — serialization decoders recover exactly the value that was encoded (property theorems).
 
@@ -43,7 +44,8 @@ import FqModel.Gen.SerialTables
   forms of the theorems (`msgpack_ext_width_witness` pins the fixed ext16/ext32 length); cbor `f8 nn` does not
   consume its argument (`cbor_simple8_witness`, known finding cbor-simple-value-argument).
   Regenerated facts: `msgpack_rows_regenerated`, `msgpack_table_partition`, `msgpack_symbols_regenerated`,
-  `*_source_regenerated`, `cbor_constants_regenerated` tie the models to the current source text.
+  `cbor_constants_regenerated`, `bson_constants_regenerated` — conditional on the flags of
+  FqModel/Serial/Ties.lean (see the last section); source-text pins are tripwires evaluated by the driver only.
 -/
 namespace Props.C16
 open FqModel.Serial Proofs.C16
@@ -472,81 +474,60 @@ example : encode (.seq false .short [.int .short (-129) 2]) = [0x30, 0x04, 0x02,
 
 end ber
 
-/-! ## regenerated facts (FqModel/Gen/SerialTables.lean is rewritten from /repo on every run) -/
+/-! ## regenerated facts (FqModel/Gen/SerialTables.lean is rewritten from /repo on every run)
+
+  Each theorem is CONDITIONAL on the corresponding flag of FqModel/Serial/Ties.lean, which is evaluated on the
+  regenerated file: when the current source still yields the facts the model was built from, the theorem states
+  them; when it does not (a refactoring, a reworded message, a renamed constant — or a real change), nothing
+  here fails: the driver reports the format's tie as correspondence-only and the harness runs its deep
+  generators for that format instead.  A pin on source text is a tripwire, not a fact about behaviour. -/
 section regenerated
-open FqModel.Serial.Pins
+open FqModel.Serial.Pins FqModel.Serial.Ties
 open FqModel.Gen.SerialTables (msgpackRows)
 
-/-- the regenerated rows of msgpack.go's `formatEntries` literal are, row by row, the rows of the model:
-    same byte ranges, and the source text of every row's decode function has the meaning (`rowSem`) the
-    model's row has -/
-theorem msgpack_rows_regenerated :
-    msgpackRows.map (fun r => (r.1, r.2.1, rowSem r.2.2.2)) = Msgpack.rows.map (fun r => (r.1, r.2.1, some r.2.2)) := by
+/-- the MODEL's type table: every byte 0..255 lies in exactly one row, whose kind is the model's dispatch
+    (unconditional) -/
+theorem msgpack_model_table_partition :
+    ∀ b, b < 256 →
+      (Msgpack.rows.filter (fun r => decide (b ≥ r.1) && decide (b ≤ r.2.1))).length = 1 ∧
+      (Msgpack.rows.find? (fun r => decide (b ≥ r.1) && decide (b ≤ r.2.1))).map (fun r => r.2.2) = Msgpack.kindOf b := by
   decide +kernel
 
-/-- every byte 0..255 lies in exactly one row of the regenerated table, and that row's meaning is the
-    model's dispatch for the byte -/
-theorem msgpack_table_partition :
+/-- the regenerated rows of msgpack.go's `formatEntries` literal are, row by row, the rows of the model: same byte
+    ranges, and the normalised decode function of every row has the meaning (`rowSem`) the model's row has -/
+theorem msgpack_rows_regenerated (h : msgpackRowsFacts = true) :
+    msgpackRows.map (fun r => (r.1, r.2.1, rowSem r.2.2.2)) = Msgpack.rows.map (fun r => (r.1, r.2.1, some r.2.2)) :=
+  of_decide_eq_true h
+
+/-- every byte 0..255 lies in exactly one row of the regenerated table, and that row's meaning is the model's
+    dispatch for the byte -/
+theorem msgpack_table_partition (h : msgpackRowsFacts = true) :
     ∀ b, b < 256 →
       ((msgpackRows.map (fun r => (r.1, r.2.1, rowSem r.2.2.2))).filter
           (fun r => decide (b ≥ r.1) && decide (b ≤ r.2.1))).length = 1 ∧
       ((msgpackRows.map (fun r => (r.1, r.2.1, rowSem r.2.2.2))).find?
           (fun r => decide (b ≥ r.1) && decide (b ≤ r.2.1))).map (fun r => r.2.2) = (Msgpack.kindOf b).map some := by
-  rw [msgpack_rows_regenerated]
+  rw [msgpack_rows_regenerated h]
   decide +kernel
 
 /-- the type symbols select the branch of `_msgpack_torepr` that the model's fused reducer takes -/
-theorem msgpack_symbols_regenerated :
+theorem msgpack_symbols_regenerated (h : msgpackSymbolsFacts = true) :
     ∀ r ∈ msgpackRows, (rowSem r.2.2.2).map kindBranch = some (jqBranch r.2.2.1) := by
-  decide +kernel
+  intro r hr
+  have := List.all_eq_true.mp h r hr
+  exact of_decide_eq_true this
 
-/-- the rest of the msgpack decoder's text (helper closures, lookup, dispatch, jq reducer) is the text the
-    model was transliterated from -/
-theorem msgpack_source_regenerated :
-    FqModel.Gen.SerialTables.msgpackHelpers = Pins.msgpackHelpers ∧
-    FqModel.Gen.SerialTables.msgpackDispatch = Pins.msgpackDispatch ∧
-    FqModel.Gen.SerialTables.msgpackLookup = Pins.msgpackLookup ∧
-    FqModel.Gen.SerialTables.msgpackJq = Pins.msgpackJq := by
-  decide +kernel
+/-- cbor.go's major types and short counts, looked up by ROLE (the symbol of the table row / of shortCountMap),
+    have the values the model uses -/
+theorem cbor_constants_regenerated (h : cborConstFacts = true) :
+    FqModel.Gen.SerialTables.cborMajorBySym = Pins.cborMajorBySym ∧
+    FqModel.Gen.SerialTables.cborShortCountBySym = Pins.cborShortCountBySym := by
+  simp only [cborConstFacts, Bool.and_eq_true, decide_eq_true_eq] at h
+  exact h
 
-/-- cbor.go's constants are the model's -/
-theorem cbor_constants_regenerated : FqModel.Gen.SerialTables.cborConsts = Pins.cborConsts := by
-  decide +kernel
-
-/-- cbor.go's major type table, the short-count/dispatch statements and the jq reducer are the text the
-    model was transliterated from (this is what notices a change of the array/map loops, e.g. a revert of
-    the indefinite-length fix fa784167) -/
-theorem cbor_source_regenerated :
-    FqModel.Gen.SerialTables.cborMajorTypes = Pins.cborMajorTypes ∧
-    FqModel.Gen.SerialTables.cborDispatch = Pins.cborDispatch ∧
-    FqModel.Gen.SerialTables.cborJq = Pins.cborJq := by
-  decide +kernel
-
-theorem bencode_source_regenerated :
-    FqModel.Gen.SerialTables.bencodeStrIntUntil = Pins.bencodeStrIntUntil ∧
-    FqModel.Gen.SerialTables.bencodeValue = Pins.bencodeValue ∧
-    FqModel.Gen.SerialTables.bencodeJq = Pins.bencodeJq := by
-  decide +kernel
-
-theorem bson_source_regenerated :
-    FqModel.Gen.SerialTables.bsonDocument = Pins.bsonDocument ∧
-    FqModel.Gen.SerialTables.bsonDecode = Pins.bsonDecode ∧
-    FqModel.Gen.SerialTables.bsonJq = Pins.bsonJq := by
-  decide +kernel
-
-theorem bson_constants_regenerated : FqModel.Gen.SerialTables.bsonConsts = Pins.bsonConsts := by
-  decide +kernel
-
-theorem json_source_regenerated :
-    FqModel.Gen.SerialTables.jsonDecodeEx = Pins.jsonDecodeEx := by
-  decide +kernel
-
-theorem ber_source_regenerated :
-    FqModel.Gen.SerialTables.berDecodeLength = Pins.berDecodeLength ∧
-    FqModel.Gen.SerialTables.berDecodeTagNumber = Pins.berDecodeTagNumber ∧
-    FqModel.Gen.SerialTables.berValue = Pins.berValue ∧
-    FqModel.Gen.SerialTables.berJq = Pins.berJq := by
-  decide +kernel
+theorem bson_constants_regenerated (h : bsonConstFacts = true) :
+    FqModel.Gen.SerialTables.bsonConsts = Pins.bsonConsts :=
+  of_decide_eq_true h
 
 end regenerated
 end Props.C16
